@@ -923,9 +923,12 @@ func genRuleLines(t *rapid.T, lbl string, fi, k int) []string {
 	} else {
 		l = append(l, fmt.Sprintf("  - record: job:metric_%d_%d:sum", fi, k))
 	}
-	if rapid.IntRange(0, 3).Draw(t, lbl+".ml") == 0 {
+	switch rapid.IntRange(0, 5).Draw(t, lbl+".ml") {
+	case 0:
 		l = append(l, "    expr: |", fmt.Sprintf("      sum(foo{job=\"j%d\"})", k), "      > 0")
-	} else {
+	case 1: // text that ends up quoted in comments: @ modifier, comparison signs, regexp, non-ASCII
+		l = append(l, fmt.Sprintf("    expr: up{job=~\"j%d|<b>.*\", team!=\"@sre_\u00fc\"} @end() * 2 > 1 & 0 # *x* _y_ #12", k))
+	default:
 		l = append(l, fmt.Sprintf("    expr: up{job=\"j%d\"} == 0", k))
 	}
 	if alert && rapid.Bool().Draw(t, lbl+".for") {
@@ -935,7 +938,11 @@ func genRuleLines(t *rapid.T, lbl string, fi, k int) []string {
 		l = append(l, "    labels:", fmt.Sprintf("      team: t%d", k))
 	}
 	if alert && rapid.Bool().Draw(t, lbl+".ann") {
-		l = append(l, "    annotations:", fmt.Sprintf("      summary: rule %d fired", k))
+		if rapid.Bool().Draw(t, lbl+".annx") {
+			l = append(l, "    annotations:", fmt.Sprintf("      summary: \"rule %d fired, ping @team-sre <now> & *then* | #%d\"", k, k))
+		} else {
+			l = append(l, "    annotations:", fmt.Sprintf("      summary: rule %d fired", k))
+		}
 	}
 	return l
 }
@@ -1085,20 +1092,59 @@ func (g *gen) lines(lbl string, tg target) (int, int) {
 	}
 }
 
+// spice: fragments a platform or a well-meaning "sanitiser" could alter
+// (mentions, HTML, markdown, references, tables, odd spacing, non-ASCII,
+// long text).  The statement wants the comment to carry the problem's text,
+// and recognition to survive whatever the text contains.
+var spice = []string{
+	"", "", "", "",
+	" for `up @end() == 0`",
+	" cc @team-sre and @alice",
+	" <b>bold</b> & co: 1 < 2 > 0",
+	" *star* _under_ **strong** __x__ ~~gone~~",
+	" see #123 and GH-45 | a | b |",
+	"  two  spaces   and a trailing one ",
+	" na\u00efve \u00fctf-8 \u2713 \u65e5\u672c\u8a9e \U0001F525",
+	" &amp; &lt;tag&gt; \"quoted\" 'single' \\backslash\\ $1 %s %d {{ $labels.x }}",
+	" [link](http://example.com/a?b=c&d=e) ![img](x.png) <!-- comment -->",
+	"\nsecond line\n- item one\n- item two\n\n    indented code\n```\nfenced\n```",
+	" tab\there",
+}
+
+func (g *gen) spiced(lbl, base string) string {
+	k := rapid.IntRange(0, len(spice)).Draw(g.t, lbl+".spice")
+	if k == len(spice) {
+		g.used["long-text"] = true
+		return base + strings.Repeat(" lorem ipsum @dolor <sit> amet", 40)
+	}
+	if spice[k] != "" {
+		g.used["spiced-text"] = true
+	}
+	return base + spice[k]
+}
+
+func (g *gen) sumText(lbl string, n int) string {
+	return g.spiced(lbl+".sum", fmt.Sprintf("S%03d problem text", n))
+}
+
+func (g *gen) detText(lbl string, n int) string {
+	return g.spiced(lbl+".det", fmt.Sprintf("D%03d some details with `code`.", n))
+}
+
 func (g *gen) fresh(lbl string) ReportSpec {
 	tg := g.pickTarget(lbl)
 	n := g.id()
 	s := ReportSpec{File: tg.file, Old: tg.old, Rule: tg.rule,
 		Reporter: rapid.SampledFrom(reporters).Draw(g.t, lbl+".rep"),
 		Sev:      rapid.IntRange(0, 3).Draw(g.t, lbl+".sev"),
-		Summary:  fmt.Sprintf("S%03d problem text", n),
 	}
+	s.Summary = g.sumText(lbl, n)
 	s.First, s.Last = g.lines(lbl, tg)
 	if rapid.Bool().Draw(g.t, lbl+".det") {
-		s.Details = fmt.Sprintf("D%03d some details with `code`.", n)
+		s.Details = g.detText(lbl, n)
 	}
 	if rapid.IntRange(0, 2).Draw(g.t, lbl+".diag") == 0 {
-		s.Diag = fmt.Sprintf("M%03d diagnostic message", n)
+		s.Diag = g.spiced(lbl+".diagtxt", fmt.Sprintf("M%03d diagnostic message", n))
 	}
 	if tg.old {
 		s.Reporter = "rule/dependency"
@@ -1118,9 +1164,9 @@ func (g *gen) add(lbl string, cur []ReportSpec) ReportSpec {
 		case 0: // same check, same lines: shares the comment
 			o := rapid.SampledFrom(cur).Draw(g.t, lbl+".of")
 			n := g.id()
-			o.Summary = fmt.Sprintf("S%03d problem text", n)
+			o.Summary = g.sumText(lbl, n)
 			if o.Details != "" {
-				o.Details = fmt.Sprintf("D%03d some details with `code`.", n)
+				o.Details = g.detText(lbl, n)
 			}
 			g.used["shared"] = true
 			return o
@@ -1184,7 +1230,7 @@ func (g *gen) evolve(lbl string, cur []ReportSpec) ([]ReportSpec, []string) {
 			o := next[k]
 			if o.Old {
 				op = "text"
-				o.Summary = fmt.Sprintf("S%03d problem text", g.id())
+				o.Summary = g.sumText(l, g.id())
 			} else {
 				var tg target
 				for tries := 0; ; tries++ {
@@ -1207,9 +1253,9 @@ func (g *gen) evolve(lbl string, cur []ReportSpec) ([]ReportSpec, []string) {
 			o := next[k]
 			n := g.id()
 			if rapid.Bool().Draw(g.t, l+".sum") {
-				o.Summary = fmt.Sprintf("S%03d problem text", n)
+				o.Summary = g.sumText(l, n)
 			} else {
-				o.Details = fmt.Sprintf("D%03d some details with `code`.", n)
+				o.Details = g.detText(l, n)
 			}
 			next[k] = o
 		}
